@@ -146,7 +146,7 @@ def gen_scenarios(ctx, plen_guess=140):
             for d in ("pub", "call", "yield", "error"):
                 eus = ERROR_URIS.get(name, ["com.app.error.bad"]) if d == "error" else [None]
                 for eu in eus:
-                    tampers = [["none"], ["garble", 0, 1], ["garble", 30, 0x80], ["garble", 60, 0xff], ["trunc", 1], ["extend"]]
+                    tampers = [["none"], ["garble", 0, 1], ["garble", 30, 0x80], ["garble", 60, 0xff], ["trunc", 1], ["extend"], ["algo"], ["ser"]]
                     tampers += [["swap", "sub"], ["swap", "detail"]] if d in ("pub", "call") else [["swap", "x"]]
                     if sweep and uris.index((u, u2)) == 0 and (eu is None or eu == eus[0]):
                         masks = [1] if quick else [1, 0x80, 0xff]
@@ -209,6 +209,8 @@ def tamper_tok(t, sc):
         return "none"
     if t[0] == "swap":
         return "swap:" + sc["uri2"]
+    if t[0] in ("algo", "ser"):
+        return t[0]
     return "garble"
 
 
@@ -341,7 +343,7 @@ def run(ctx):
     res.rule = ("scenario = key-ring layout (11: default key both/asymmetric, per-prefix, layered prefixes with default, layered "
                 "with a missing deeper key at B, wrong key, originator-only on both sides, responder-only, no codec at A / at B, "
                 "prefix elsewhere) x URI pairs x direction {publish/event, call/invocation, yield/result, error} x error URI "
-                "{covered, not covered, plain exception} x fault {none, byte alteration, truncation, extension, swapped "
+                "{covered, not covered, plain exception} x fault {none, byte alteration, truncation, extension, enc_algo / enc_serializer replaced by another valid identifier, swapped "
                 "envelope via id / via detail / error URI / foreign RESULT payload}; the two sweep layouts alter EVERY byte "
                 "position of the ciphertext (quick: xor 0x01; thorough: 0x01, 0x80, 0xff, random) in every direction; plus "
                 "payloads the inner envelope cannot serialise (CBOR transport). Each exchange runs on "
